@@ -16,6 +16,11 @@ bad=<n>: the driver answers Begin with driver.ErrBadConn n times first (log BB).
 cancel=c<k> / d<k>: the context given to TransactCtx is cancelled / runs into its deadline just before statement k
 (k = number of statements: just before the body ends); api=ctxdead: the deadline has passed before the call.
 commit=panic / rollback=panic: the driver's Commit / Rollback panics (log C! / R!, obs esc=1 when the call left by a panic).
+round 4 — cfg: accept=<none|user|user2|both> (WithAcceptable options in order), accept1=… (second SqlConn instance of the
+section; ops say inst=<0|1>).  commit= / rollback= also `fail:<cls>:<i|w|b>`: the failing call returns an error of a
+breaker-acceptable class (Is method / wrapping the sentinel / the bare sentinel).  statement letters r / o / w: a QueryRow
+that finds no row (ErrNotFound returned / ignored) / that the driver faults; t / T: exec / nested Transact through
+NewSessionFromTx(raw tx).  obs: `core=<ret>|-` what the request handed to the breaker returned (recording breaker only).
 -/
 import GoZero.Base.Trace
 import GoZero.C14.Spec
